@@ -48,7 +48,9 @@ impl BlockFormatter for BlockIndentRemover {
             Some(pos) => start_byte_pos - pos - 1,
             None => 0,
         };
-        let mut current_pos = start_byte_pos + 1;
+        // The body starts on the line after the seam (the seam normally sits on the line break itself).
+        let mut current_pos = find_next_line_break_pos(content, bytes, start_byte_pos, false)
+            .map_or(bytes.len(), |pos| pos + 1);
         let first_indent_len = get_indent_len(content, current_pos);
         let indent_len = first_indent_len.saturating_sub(indent_ofs);
 
